@@ -285,7 +285,7 @@ impl Monitor for C05 {
                                 "C05",
                                 "R3-free-collateral-negative",
                                 "R3|fcm".into(),
-                                format!("recomputed free collateral after withdrawal = {} (engine query {:?})", fc, fc_q),
+                                format!("recomputed free collateral after withdrawal = {} (engine query {:?}); view {:?}", fc, fc_q, pos_view(w, &st.post, vi, sender)),
                                 st.seq,
                             );
                         }
